@@ -868,12 +868,19 @@ func (dht *FullRT) getValues(ctx context.Context, key string) (<-chan RecvdVal, 
 	logger.Debugw("finding value", "key", internal.LoggableRecordKeyString(key))
 
 	if rec, err := dht.getLocal(ctx, key); rec != nil && err == nil {
-		select {
-		case valCh <- RecvdVal{
-			Val:  rec.GetValue(),
-			From: dht.h.ID(),
-		}:
-		case <-ctx.Done():
+		// The value store only checked the record when it was stored: it may
+		// have become invalid by the validator's rules since (e.g. an IPNS
+		// record past its end of life), exactly like a record from the network.
+		if err := dht.Validator.Validate(key, rec.GetValue()); err != nil {
+			logger.Debugw("local record verify failed", "key", internal.LoggableRecordKeyString(key), "error", err)
+		} else {
+			select {
+			case valCh <- RecvdVal{
+				Val:  rec.GetValue(),
+				From: dht.h.ID(),
+			}:
+			case <-ctx.Done():
+			}
 		}
 	}
 	peers, err := dht.GetClosestPeers(ctx, key)
